@@ -4,7 +4,7 @@ CONSTANTS Cfgs = {}
           Indents = {0, 1, 2, 3}
           MaxLines = 2
           MaxTokens = 5
-          Budget = 20000
+          Budget = 12000
           LenFrom = "room"
 INVARIANTS WordsOK IndentOK NewlineOK WidthOK CurOK DashOK LineShapeOK
 ACTION_CONSTRAINT EdgeOut
